@@ -834,6 +834,7 @@ export class ProcGenWrapper {
         false,
         true,
         generalLvaluePath,
+        camelName,
       )
     } else if (camelName.startsWith('captureBind')) {
       this.v(
@@ -845,6 +846,7 @@ export class ProcGenWrapper {
         true,
         true,
         generalLvaluePath,
+        camelName,
       )
     } else if (camelName.startsWith('catch')) {
       this.v(
@@ -856,6 +858,7 @@ export class ProcGenWrapper {
         false,
         true,
         generalLvaluePath,
+        camelName,
       )
     } else if (camelName.startsWith('captureCatch')) {
       this.v(
@@ -867,6 +870,7 @@ export class ProcGenWrapper {
         true,
         true,
         generalLvaluePath,
+        camelName,
       )
     } else if (camelName.startsWith('on')) {
       this.v(
@@ -878,6 +882,7 @@ export class ProcGenWrapper {
         false,
         true,
         generalLvaluePath,
+        camelName,
       )
     } else {
       return false
@@ -1038,6 +1043,8 @@ export class ProcGenWrapper {
     capture: boolean,
     isDynamic: boolean,
     generalLvaluePath?: DataPath | null,
+    // tells apart the bindings of one event that have the same options (the attribute name for fallback listeners)
+    ordinal?: number | string,
   ) => {
     const handler = typeof v === 'function' ? v : dataValueToString(v)
     const listener: EventListener<unknown> = (ev) => {
@@ -1068,8 +1075,9 @@ export class ProcGenWrapper {
       const tmplArgs = getTmplArgs(elem)
       if (!tmplArgs.dynEvListeners) tmplArgs.dynEvListeners = {}
       const dynEvListeners = tmplArgs.dynEvListeners
-      // (one entry per binding: `bind:tap` and `capture-bind:tap` / `catch:tap` are different bindings of one event)
-      const bindingKey = `${capture ? 'c' : ''}${mutated ? 'm' : ''}${final ? 'f' : ''}:${evName}`
+      // (one entry per binding: `bind:tap` and `capture-bind:tap` / `catch:tap` are different bindings of one event,
+      // and so are two `bind:tap`, which the generated code tells apart by an ordinal)
+      const bindingKey = `${capture ? 'c' : ''}${mutated ? 'm' : ''}${final ? 'f' : ''}${ordinal || ''}:${evName}`
       if (dynEvListeners[bindingKey]) {
         elem.removeListener(evName, dynEvListeners[bindingKey]!, evOptions)
       }
